@@ -33,8 +33,9 @@ BASES = "ACGT"
 
 @st.composite
 def vcf_case(draw):
-    n_samples = draw(st.integers(1, 3))
-    ploidies = [draw(st.sampled_from([2, 4, 3])) for _ in range(n_samples)]
+    n_samples = draw(st.sampled_from([1, 2, 3, 3, 5, 6]))
+    ploidies = [draw(st.sampled_from([2, 4, 3, 6])) for _ in range(n_samples)]
+    homo_bias = draw(st.booleans())  # many copies of one ALT: allele counts of 10, 20 occur
     fields = {"ACP": draw(st.booleans()), "AFP": draw(st.booleans()), "SNVDP": draw(st.booleans())}
     recs = []
     pos = 10
@@ -63,7 +64,10 @@ def vcf_case(draw):
                 gt = [None] * p
             else:
                 lo = 1 if refmasked else 0
-                gt = sorted(draw(st.integers(lo, n_all - 1)) for _ in range(p)) if n_all - 1 >= lo else [None] * p
+                if homo_bias and n_all - 1 >= max(lo, 1) and draw(st.integers(0, 3)) > 0:
+                    gt = [n_all - 1] * p
+                else:
+                    gt = sorted(draw(st.integers(lo, n_all - 1)) for _ in range(p)) if n_all - 1 >= lo else [None] * p
                 if draw(st.integers(0, 5)) == 0 and p > 1:
                     k = draw(st.integers(1, p - 1))
                     gt = gt[: p - k] + [None] * k
@@ -333,5 +337,5 @@ def replay(ctx, case):
 
 def run(ctx):
     q = ctx.quick
-    ctx.hyp("vcf", vcf_case(), check_vcf, 300 if q else 2000)
-    ctx.hyp("pipeline", pipeline_case(), check_pipeline, 10 if q else 60)
+    ctx.hyp("vcf", vcf_case(), check_vcf, 500 if q else 2500)
+    ctx.hyp("pipeline", pipeline_case(), check_pipeline, 25 if q else 100)
